@@ -359,8 +359,58 @@ def rule_o8(ctx):
                          "freed)" % (f.name, aio, s.line, aio))
 
 
+def rule_o9(ctx):
+    """registry / membership-flag coherence"""
+    from ..core import const_of
+    r = ctx.rule("C03.O9", "T3", "a registry that forgets an object clears the object's membership mark: where a function stores an "
+                 "object into a global table and sets a boolean field of it (registered), every function that empties a slot of "
+                 "that table clears the field of the object it drops -- otherwise the object is never registered again, and what "
+                 "it allocates after the next nng_init is not released by nng_fini", floor=1)
+    prog = ctx.prog
+    pairs = {}       # global table name -> 'rec.flag'
+    for f in prog.functions:
+        if f.cfg_failed:
+            continue
+        flags = {}
+        for t in f.assigns():
+            l = t.node["lhs"]
+            if l.get("k") == "mem" and (l.get("t") or "") in ("bool", "_Bool") and const_of(f.expand(t.node["rhs"])) not in (None, 0):
+                b = f.expand(l["b"]) if l.get("b") is not None else None
+                if b is not None and b.get("k") == "var":
+                    flags[b["n"]] = last_field(l)
+        for t in f.assigns():
+            l = t.node["lhs"]
+            e = f.expand(t.node["rhs"])
+            if l.get("k") == "idx" and l.get("b") is not None and l["b"].get("k") == "var" and l["b"].get("vk") in ("global", "slocal") \
+                    and e is not None and e.get("k") == "var" and e["n"] in flags:
+                pairs[l["b"]["n"]] = flags[e["n"]]
+    if not pairs:
+        raise AnalysisBroken("no registry with a membership flag found (the static id-map registry vanished)")
+    for f in prog.functions:
+        if f.cfg_failed:
+            continue
+        for t in f.assigns():
+            l = t.node["lhs"]
+            if l.get("k") == "idx" and l.get("b") is not None and l["b"].get("k") == "var" and l["b"]["n"] in pairs and is_null(f.expand(t.node["rhs"])):
+                flag = pairs[l["b"]["n"]]
+                clears = [(x.b, x.i) for x in f.assigns() if x.node["lhs"].get("k") == "mem" and last_field(x.node["lhs"]) == flag and
+                          const_of(f.expand(x.node["rhs"])) == 0]
+                # the flag is cleared on the way to the slot store (same iteration: the store is not reachable from the
+                # loop head without passing a clear)
+                ok = bool(clears) and any((t.b, t.i) in f.reach((c[0], c[1] + 1), blocked=lambda b, i, e: False) for c in clears) and \
+                    f.dominated_by((t.b, t.i), blocked=lambda b, i, e: (b, i) in clears)
+                if ok:
+                    r.ob(f, "%s line %s: %s cleared first" % (show(l), t.line, flag))
+                else:
+                    ctx.fail(r, f, "%s emptied without clearing %s" % (l["b"]["n"], flag.split(".")[1]), t.line,
+                             "%s drops an object from %s at line %s but leaves its %s set: after the next nng_init the object "
+                             "believes it is still registered, is never put back, and the storage it allocates is not released "
+                             "by nng_fini" % (f.name, l["b"]["n"], t.line, flag))
+
+
 def run(ctx):
     ctx.guard(rule_o1)
     ctx.guard(rule_o4)
     ctx.guard(rule_o7)
     ctx.guard(rule_o8)
+    ctx.guard(rule_o9)
